@@ -50,6 +50,18 @@ class H:
         return "H%d" % self.n
 
 
+_HEAP_ORDERS = {}
+
+
+def heap_orders(n):
+    """All arrangements of ranks 0..n-1 in an array of length n that satisfy the min-heap order."""
+    if n not in _HEAP_ORDERS:
+        import itertools
+        _HEAP_ORDERS[n] = [p for p in itertools.permutations(range(n))
+                           if all(p[(j - 1) // 2] < p[j] for j in range(1, n))]
+    return _HEAP_ORDERS[n]
+
+
 class State:
     def __init__(self, family, nh):
         from jellyfysh.scheduler.heap_scheduler.heap_scheduler import HeapScheduler
@@ -91,6 +103,8 @@ class State:
                     self.heap._minimal_valid_counter[h] = family[2]
                 except AttributeError as e:
                     raise HarnessError("cannot preset deletion counters: %r" % (e,))
+        elif kind == "layout":
+            self.laid = False
         elif kind == "counter":
             for h in self.hs:
                 try:
@@ -100,6 +114,13 @@ class State:
 
     def enabled(self):
         if self.stopped:
+            return
+        if self.family[0] == "layout" and not self.laid:
+            n, nstale = self.family[1], self.family[2]
+            import itertools
+            for pi, perm in enumerate(heap_orders(n)):
+                for slots in itertools.combinations(range(n), nstale):
+                    yield ("layout", pi, slots)
             return
         for i in range(len(self.hs)):
             if i in self.ref:
@@ -124,7 +145,7 @@ class State:
         lst = tuple((e.time.quotient, e.time.remainder, e.event_handler.n) for e in self.lst._times)
         ll = self.lst._last_returned_event[0]
         key = (ents, counters, lastret, st.get("_allocated_memory_bytes"), self.high, lst,
-               (ll.quotient, ll.remainder), tuple(sorted(self.ref.items())), self.last, self.stopped)
+               (ll.quotient, ll.remainder), tuple(sorted(self.ref.items())), self.last, self.stopped, getattr(self, 'laid', None))
         return hashlib.blake2b(repr(key).encode(), digest_size=16).digest()
 
     def apply(self, op):
@@ -133,6 +154,29 @@ class State:
         from jellyfysh.base.exceptions import SchedulerError
         name = op[0]
         try:
+            if name == "layout":
+                # array slot j receives rank perm[j]; pushing in slot order needs no sift (perm is heap-ordered), so
+                # the C array is exactly the layout.  Slots in op[2] are stale entries of handler 0 (push + trash);
+                # every other slot is the live event of its own handler.  Handler 0's counter is then set to 2^32:
+                # its next push takes the OverflowError -> delete_events -> counter reset branch.
+                perm = heap_orders(self.family[1])[op[1]]
+                nxt = 1
+                for j, rank in enumerate(perm):
+                    t = (0.0, 0.03125 * (rank + 1))
+                    tt = Time(*t)
+                    if j in op[2]:
+                        for s_ in (self.heap, self.lst):
+                            s_.push_event(tt, self.hs[0])
+                            s_.trash_event(self.hs[0])
+                    else:
+                        for s_ in (self.heap, self.lst):
+                            s_.push_event(tt, self.hs[nxt])
+                        self.ref[nxt] = t
+                        nxt += 1
+                self.high = len(perm)
+                self.heap._minimal_valid_counter[self.hs[0]] = 2 ** 32
+                self.laid = True
+                return None
             if name == "push":
                 t = self.times[op[2]]
                 tt = inf if t[0] == INF else Time(*t)
@@ -227,6 +271,9 @@ class State:
         return None
 
     def fmt(self, op):
+        if op[0] == "layout":
+            return "layout(array ranks %r, stale slots of H0 %r, counter[H0]=2^32)" % (
+                heap_orders(self.family[1])[op[1]], tuple(op[2]))
         if op[0] == "push":
             return "push(H%d, %r)" % (op[1], self.times[op[2]])
         if op[0] == "trash":
@@ -457,6 +504,10 @@ def plan(ctx):
           (("counter", 2 ** 32 - 2, "small"), 3, 7 if t else 6), (("counter", 2 ** 32 - 3, "small"), 2, 9 if t else 7)]
     for k in ((7, 10, 15, 23) if t else (10, 15)):
         pl.append((("prefill_counter", k, 2 ** 32 - 2, "small"), 3, 6 if t else 5))
+    # explicit heap layouts: every heap-ordered array of n distinct times, every choice of stale slots of one handler
+    # whose counter then overflows (a hole filled from another subtree must be sifted up as well as down)
+    for n, ns in (((5, 1), (6, 1), (6, 2), (7, 1), (7, 2), (8, 1)) if t else ((6, 1), (7, 1), (7, 2))):
+        pl.append((("layout", n, ns, "small"), n, 4 if t and n <= 6 else 3))
     for k in ((61, 62, 63, 64, 66, 70, 127) if t else (62, 63, 70)):
         pl.append((("prefill", k, "small"), 3, 5 if t else 4))
     if t:
